@@ -131,6 +131,16 @@ class Built:
         from basyx.aas import model
         for p in sorted(self.objs):
             o = self.objs[p]
+            if isinstance(o, model.Operation):
+                # the three variable sets share one idShort scope: a rename onto a variable of another set is refused, nothing changes
+                sets = [s_ for s_ in (o.input_variable, o.output_variable, o.in_output_variable) if len(s_)]
+                if len(sets) >= 2:
+                    a, b = next(iter(sets[0])), next(iter(sets[-1]))
+                    for x, y in ((a, b), (b, a)):
+                        try:
+                            x.id_short = y.id_short
+                        except Exception:
+                            pass
             if isinstance(o, model.SubmodelElementList):
                 if len(o.value) >= 2:
                     x = o.value.pop(0)
